@@ -1,50 +1,29 @@
 package main
 
-// T1 facts for the POP3 session model (C13), re-read from pkg/server/pop3/*.go (test files excluded):
-//   commandKeys / commandVals      the `commands` map literal (keys as bytes, in source order)
-//   authCases / transCases         the string case labels of `switch cmd` in the two handlers, and whether a default exists
-//   loopTests                      the `if` conditions on `cmd` in startSession's loop, in source order (CAPA first)
-//   loopCond                       the condition of the command loop
-//   processDeletesCalls            every call site of processDeletes: (function, enclosing `case` label of switch cmd)
-//   loadMailboxCalls               same for loadMailbox
-//   storeCalls                     every `….store.<Method>(…)` call in the package: (function, method)
-//   parseIntArgs                   the distinct (base, bitSize) of strconv.ParseInt calls in the handlers
+// T1 facts for the POP3 session model (C13), re-read from pkg/server/pop3/*.go (test files excluded).  Functions are
+// found by what they do, never by name (k1kit.go): the command loop is the function holding
+// `switch <session>.<state> { case AUTHORIZATION: <session>.h(cmd, args) … }`, a state's handler is what that switch calls.
+//   commandKeys / commandVals      the package's command set (its one package-level map[string]bool literal)
+//   dispatchStates                 the states the loop dispatches, in source order
+//   authCases / transCases         the string case labels of the switch on the command word in the two handlers, and
+//                                  whether a default exists
+//   loopTests                      the `if` conditions on the command word in the loop, in source order (CAPA first)
+//   loopCond                       the condition of the command loop ($s = the session)
+//   storeReach                     (state, clause label, Store method) for every storage.Store method a clause of a
+//                                  handler can reach through the package's own functions; ("", "loop", m) for one the
+//                                  loop reaches outside the dispatch, ("", "elsewhere", m) for any other call
+//   parseIntArgs                   the distinct (base, bitSize) of strconv.ParseInt calls in the package
 
 import (
 	"fmt"
 	"go/ast"
 	"go/token"
-	"os"
-	"path/filepath"
 	"sort"
 	"strconv"
 	"strings"
 )
 
 func init() { extractors = append(extractors, extractPop3) }
-
-func pop3Files() []*ast.File {
-	dir := filepath.Join(repo, "pkg/server/pop3")
-	ents, err := os.ReadDir(dir)
-	if err != nil {
-		return nil
-	}
-	names := []string{}
-	for _, e := range ents {
-		n := e.Name()
-		if strings.HasSuffix(n, ".go") && !strings.HasSuffix(n, "_test.go") {
-			names = append(names, n)
-		}
-	}
-	sort.Strings(names)
-	var fs []*ast.File
-	for _, n := range names {
-		if f := parse("pkg/server/pop3/" + n); f != nil {
-			fs = append(fs, f)
-		}
-	}
-	return fs
-}
 
 func strLit(e ast.Expr) (string, bool) {
 	lit, ok := e.(*ast.BasicLit)
@@ -71,226 +50,200 @@ func pairList(ps [][2]string) string {
 	return "[" + strings.Join(p, ", ") + "]"
 }
 
-// cmdSwitches: the `switch cmd {…}` statements of a function
-func cmdSwitches(fd *ast.FuncDecl) []*ast.SwitchStmt {
-	var res []*ast.SwitchStmt
-	if fd == nil || fd.Body == nil {
+// pop3StoreMethods: the method names of the storage.Store interface.
+func pop3StoreMethods() map[string]bool {
+	res := map[string]bool{}
+	f := parse("pkg/storage/storage.go")
+	if f == nil {
 		return res
 	}
-	ast.Inspect(fd.Body, func(n ast.Node) bool {
-		if sw, ok := n.(*ast.SwitchStmt); ok && sw.Tag != nil && src(sw.Tag) == "cmd" {
-			res = append(res, sw)
+	ast.Inspect(f, func(n ast.Node) bool {
+		ts, ok := n.(*ast.TypeSpec)
+		if !ok || ts.Name.Name != "Store" {
+			return true
 		}
-		return true
-	})
-	return res
-}
-
-// caseLabels: string labels of the unique `switch cmd`; ok=false when the shape is not recognised
-func caseLabels(fd *ast.FuncDecl) (labels []string, hasDefault bool, ok bool) {
-	sws := cmdSwitches(fd)
-	if len(sws) != 1 {
-		return nil, false, false
-	}
-	for _, st := range sws[0].Body.List {
-		cc, isCC := st.(*ast.CaseClause)
-		if !isCC {
-			return nil, false, false
-		}
-		if cc.List == nil {
-			hasDefault = true
-			continue
-		}
-		for _, e := range cc.List {
-			s, isStr := strLit(e)
-			if !isStr {
-				return nil, false, false
+		if it, ok := ts.Type.(*ast.InterfaceType); ok {
+			for _, m := range it.Methods.List {
+				for _, nm := range m.Names {
+					res[nm.Name] = true
+				}
 			}
-			labels = append(labels, s)
-		}
-	}
-	return labels, hasDefault, true
-}
-
-// callsOf: call sites of method/function `name` in fd, each with the label of the enclosing case of `switch cmd`
-// ("" = not inside such a case; "default" for the default clause)
-func callsOf(fd *ast.FuncDecl, name string) [][2]string {
-	var res [][2]string
-	if fd == nil || fd.Body == nil {
-		return res
-	}
-	isCall := func(n ast.Node) bool {
-		ce, ok := n.(*ast.CallExpr)
-		if !ok {
-			return false
-		}
-		switch f := ce.Fun.(type) {
-		case *ast.Ident:
-			return f.Name == name
-		case *ast.SelectorExpr:
-			return f.Sel.Name == name
 		}
 		return false
-	}
-	inCase := map[ast.Node]bool{}
-	for _, sw := range cmdSwitches(fd) {
-		for _, st := range sw.Body.List {
-			cc, ok := st.(*ast.CaseClause)
-			if !ok {
-				continue
-			}
-			label := "default"
-			if cc.List != nil {
-				ls := []string{}
-				for _, e := range cc.List {
-					if s, ok := strLit(e); ok {
-						ls = append(ls, s)
-					} else {
-						ls = append(ls, "?")
-					}
-				}
-				label = strings.Join(ls, ",")
-			}
-			for _, b := range cc.Body {
-				ast.Inspect(b, func(n ast.Node) bool {
-					if n != nil && isCall(n) {
-						inCase[n] = true
-						res = append(res, [2]string{fd.Name.Name, label})
-					}
-					return true
-				})
-			}
-		}
-	}
-	ast.Inspect(fd.Body, func(n ast.Node) bool {
-		if n != nil && isCall(n) && !inCase[n] {
-			res = append(res, [2]string{fd.Name.Name, ""})
-		}
-		return true
 	})
 	return res
+}
+
+// pop3Reach: the Store methods called from the nodes, directly or through the package's own functions (source order).
+func pop3Reach(p *k1Pkg, store map[string]bool, nodes []ast.Node, seen map[*ast.FuncDecl]bool, out *[]string, skip map[ast.Node]bool) {
+	for _, n := range nodes {
+		if n == nil {
+			continue
+		}
+		ast.Inspect(n, func(x ast.Node) bool {
+			if x != nil && skip[x] {
+				return false
+			}
+			ce, ok := x.(*ast.CallExpr)
+			if !ok {
+				return true
+			}
+			if sel, ok := ce.Fun.(*ast.SelectorExpr); ok && store[sel.Sel.Name] && p.resolve(ce) == nil {
+				dup := false
+				for _, m := range *out {
+					if m == sel.Sel.Name {
+						dup = true
+					}
+				}
+				if !dup {
+					*out = append(*out, sel.Sel.Name)
+				}
+			}
+			if fd := p.resolve(ce); fd != nil && !seen[fd] {
+				seen[fd] = true
+				pop3Reach(p, store, []ast.Node{fd.Body}, seen, out, skip)
+			}
+			return true
+		})
+	}
+}
+
+func pop3Triples(ts [][3]string) string {
+	p := []string{}
+	for _, x := range ts {
+		p = append(p, "("+leanStr(x[0])+", "+leanStr(x[1])+", "+leanStr(x[2])+")")
+	}
+	return "[" + strings.Join(p, ", ") + "]"
 }
 
 func extractPop3() {
+	defer k1Recover("extractPop3")
 	g := gen("Pop3")
-	files := pop3Files()
-	var handler *ast.File
-	for _, f := range files {
-		if fn(f, "Session", "transactionHandler") != nil {
-			handler = f
-		}
-	}
-	// the commands map
-	var keys []string
-	var vals []string
-	known := false
-	if handler != nil {
-		for _, d := range handler.Decls {
-			gd, ok := d.(*ast.GenDecl)
-			if !ok || gd.Tok != token.VAR {
-				continue
-			}
-			for _, sp := range gd.Specs {
-				vs, ok := sp.(*ast.ValueSpec)
-				if !ok || len(vs.Names) != 1 || vs.Names[0].Name != "commands" || len(vs.Values) != 1 {
-					continue
-				}
-				cl, ok := vs.Values[0].(*ast.CompositeLit)
-				if !ok {
-					continue
-				}
-				known = true
-				for _, el := range cl.Elts {
-					kv, ok := el.(*ast.KeyValueExpr)
-					if !ok {
-						known = false
-						break
-					}
-					k, ok := strLit(kv.Key)
-					if !ok {
-						known = false
-						break
-					}
-					keys = append(keys, k)
-					vals = append(vals, src(kv.Value))
-				}
-			}
-		}
-	}
+	p := k1LoadPkg("pkg/server/pop3")
+	d := k1FindDispatch(p)
+	keys, vals, known := p.boolMapKeys()
 	if known {
-		g.def("commandKeys", "Option (List (List Nat))", "some "+bytesList(keys), "keys of the `commands` map literal, in source order")
+		g.def("commandKeys", "Option (List (List Nat))", "some "+bytesList(keys), "keys of the package's command set (its one package-level map[string]bool literal), in source order")
 		g.def("commandVals", "List String", strList(vals), "their values as written")
 	} else {
-		g.def("commandKeys", "Option (List (List Nat))", "none", "`commands` map literal not recognised")
+		g.def("commandKeys", "Option (List (List Nat))", "none", "command set literal not recognised")
 		g.def("commandVals", "List String", "[]", "")
 	}
-	emitCases := func(name, fnName string) {
-		ls, def, ok := caseLabels(fn(handler, "Session", fnName))
-		if !ok {
-			g.def(name, "Option (List (List Nat) × Bool)", "none", "switch cmd of "+fnName+" not recognised")
+	states := []string{}
+	if d != nil {
+		states = d.states
+	}
+	g.def("dispatchStates", "List String", strList(states), "the states the command loop dispatches to a handler(cmd, args), in source order")
+	emitCases := func(name, state string) {
+		var s *k1Switch
+		if d != nil && d.handlers[state] != nil {
+			s = k1TopSwitch(d.handlerEnv(p, state), d.handlers[state].Body)
+		}
+		if s == nil {
+			g.def(name, "Option (List (List Nat) × Bool)", "none", "command table of the "+state+" handler not recognised")
 			return
 		}
+		ls := []string{}
+		def := false
+		for _, l := range s.labels {
+			if len(l) == 1 && l[0] == "<default>" {
+				def = true
+				continue
+			}
+			ls = append(ls, l...)
+		}
 		g.def(name, "Option (List (List Nat) × Bool)", fmt.Sprintf("some (%s, %v)", bytesList(ls), def),
-			"case labels of `switch cmd` in "+fnName+" (source order) and whether it has a default clause")
+			"case labels of the switch on the command word in the "+state+" handler (source order) and whether it has a default clause")
 	}
-	emitCases("authCases", "authorizationHandler")
-	emitCases("transCases", "transactionHandler")
+	emitCases("authCases", "AUTHORIZATION")
+	emitCases("transCases", "TRANSACTION")
 
-	// the tests on cmd in the command loop, and the loop condition
-	var tests []string
+	// the tests on the command word in the command loop, and the loop condition
+	tests := []string{}
 	loopCond := ""
-	if ss := fn(handler, "Server", "startSession"); ss != nil && ss.Body != nil {
-		ast.Inspect(ss.Body, func(n ast.Node) bool {
-			switch v := n.(type) {
-			case *ast.ForStmt:
-				if v.Cond != nil && loopCond == "" {
-					loopCond = src(v.Cond)
-				}
-			case *ast.IfStmt:
-				c := src(v.Cond)
-				if strings.Contains(c, "cmd") {
+	if d != nil {
+		if d.loop != nil && d.loop.Cond != nil {
+			loopCond = d.env.canon(d.loop.Cond)
+		}
+		ast.Inspect(d.fn.Body, func(n ast.Node) bool {
+			if is, ok := n.(*ast.IfStmt); ok {
+				if c := d.env.canon(is.Cond); strings.Contains(c, "$cmd") {
 					tests = append(tests, c)
 				}
 			}
 			return true
 		})
 	}
-	g.def("loopTests", "List String", strList(tests), "`if` conditions mentioning cmd inside startSession, in source order")
-	g.def("loopCond", "String", leanStr(loopCond), "condition of the command loop")
+	g.def("loopTests", "List String", strList(tests), "`if` conditions on the command word ($cmd) inside the command loop's function, in source order")
+	g.def("loopCond", "String", leanStr(loopCond), "condition of the command loop ($s = the session)")
 
-	var pd, lm, sc [][2]string
-	piArgs := map[string]bool{}
-	for _, f := range files {
-		for _, d := range f.Decls {
-			fd, ok := d.(*ast.FuncDecl)
-			if !ok {
+	// where the store is touched
+	store := pop3StoreMethods()
+	var reach [][3]string
+	touched := map[*ast.FuncDecl]bool{}
+	if d != nil {
+		for _, st := range d.states {
+			s := k1TopSwitch(d.handlerEnv(p, st), d.handlers[st].Body)
+			if s == nil {
+				reach = append(reach, [3]string{st, "?", "?"})
 				continue
 			}
-			pd = append(pd, callsOf(fd, "processDeletes")...)
-			lm = append(lm, callsOf(fd, "loadMailbox")...)
-			if fd.Body == nil {
-				continue
+			inSwitch := map[ast.Node]bool{s.sw: true}
+			for i, cc := range s.clauses {
+				var ms []string
+				seen := map[*ast.FuncDecl]bool{}
+				pop3Reach(p, store, k1ClauseNodes(cc), seen, &ms, nil)
+				for fd := range seen {
+					touched[fd] = true
+				}
+				for _, m := range ms {
+					reach = append(reach, [3]string{st, strings.Join(s.labels[i], ","), m})
+				}
 			}
-			ast.Inspect(fd.Body, func(n ast.Node) bool {
-				ce, ok := n.(*ast.CallExpr)
-				if !ok {
-					return true
-				}
-				if se, ok := ce.Fun.(*ast.SelectorExpr); ok {
-					if inner, ok := se.X.(*ast.SelectorExpr); ok && inner.Sel.Name == "store" {
-						sc = append(sc, [2]string{fd.Name.Name, se.Sel.Name})
-					}
-					if src(ce.Fun) == "strconv.ParseInt" && len(ce.Args) == 3 {
-						piArgs[src(ce.Args[1])+","+src(ce.Args[2])] = true
-					}
-				}
-				return true
-			})
+			// the handler outside its table
+			var ms []string
+			seen := map[*ast.FuncDecl]bool{d.handlers[st]: true}
+			pop3Reach(p, store, []ast.Node{d.handlers[st].Body}, seen, &ms, inSwitch)
+			for fd := range seen {
+				touched[fd] = true
+			}
+			for _, m := range ms {
+				reach = append(reach, [3]string{st, "", m})
+			}
+		}
+		// the loop outside the dispatch
+		var ms []string
+		seen := map[*ast.FuncDecl]bool{d.fn: true}
+		pop3Reach(p, store, []ast.Node{d.fn.Body}, seen, &ms, map[ast.Node]bool{d.sw: true})
+		for fd := range seen {
+			touched[fd] = true
+		}
+		for _, m := range ms {
+			reach = append(reach, [3]string{"", "loop", m})
 		}
 	}
-	g.def("processDeletesCalls", "List (String × String)", pairList(pd), "call sites of processDeletes: (function, enclosing case of switch cmd)")
-	g.def("loadMailboxCalls", "List (String × String)", pairList(lm), "call sites of loadMailbox")
-	g.def("storeCalls", "List (String × String)", pairList(sc), "every <x>.store.<Method>(…) call in the package: (function, method)")
+	// anything else in the package
+	for _, fd := range p.funcs {
+		if touched[fd] {
+			continue
+		}
+		for _, ce := range k1Calls(fd.Body) {
+			if sel, ok := ce.Fun.(*ast.SelectorExpr); ok && store[sel.Sel.Name] && p.resolve(ce) == nil {
+				reach = append(reach, [3]string{"", "elsewhere", sel.Sel.Name})
+			}
+		}
+	}
+	g.def("storeReach", "List (String × String × String)", pop3Triples(reach), "(state, clause, Store method) for every method of storage.Store a clause can reach through the package's own functions; (\"\", \"loop\" | \"elsewhere\", m) for calls outside the handlers' tables")
+
+	piArgs := map[string]bool{}
+	for _, fd := range p.funcs {
+		e := k1NewEnv(p, fd)
+		for _, ce := range k1Calls(fd.Body) {
+			if k1QualCall(ce, "strconv", "ParseInt") && len(ce.Args) == 3 {
+				piArgs[e.canon(ce.Args[1])+","+e.canon(ce.Args[2])] = true
+			}
+		}
+	}
 	pis := []string{}
 	for k := range piArgs {
 		pis = append(pis, k)
